@@ -253,6 +253,8 @@ class JsonWebSignature:
             raise MissingAlgorithmError()
 
         alg = header["alg"]
+        if not isinstance(alg, str):
+            raise UnsupportedAlgorithmError()
         if self._algorithms is not None and alg not in self._algorithms:
             raise UnsupportedAlgorithmError()
         if alg not in self.ALGORITHMS_REGISTRY:
@@ -295,6 +297,8 @@ class JsonWebSignature:
                 raise InvalidHeaderParameterNameError(str(name))
 
     def _validate_json_jws(self, payload_segment, payload, header_obj, key):
+        if not isinstance(header_obj, dict):
+            raise DecodeError('Invalid "signatures" value')
         protected_segment = header_obj.get("protected")
         if not protected_segment:
             raise DecodeError('Missing "protected" value')
